@@ -14,6 +14,7 @@ CH = 'tarpc/src/transport/channel.rs'
 ST = 'tarpc/src/serde_transport.rs'
 
 RULES = [
+    Rule('R2:project-binding', r'self\s*\.project\(\)\s*\.(\w+);', r'&mut self.\1;', flags=re.M | re.S, why='A-pin: a projected field bound to a local is a mutable borrow of that field'),
     Rule('R2:project', r'self\s*\.project\(\)\s*\.', 'self.', flags=re.M | re.S, why='A-pin: projection is field access'),
     Rule('R5:boxed-error', r"Box<dyn Error \+ Send \+ Sync \+ 'static>", 'BoxErr', why='opaque boxed error (prelude model)'),
     Rule('R5:box-new', r'Box::new\(e\)', 'BoxErr::new(e)', why='boxing + unsizing coercion to the opaque boxed error'),
